@@ -394,10 +394,27 @@ func (a *argSpec) typeCheck(arg interface{}) error {
 	return fmt.Errorf("Invalid type for: %v, expected: %#v", arg, a.types)
 }
 
+// toGenericSlice converts a user provided typed slice ([]string, []T, ...)
+// into the []interface{} form the function handlers work with.
+func toGenericSlice(arg interface{}) interface{} {
+	if _, ok := arg.([]interface{}); ok || !isSliceType(arg) {
+		return arg
+	}
+	rv := reflect.ValueOf(arg)
+	generic := make([]interface{}, rv.Len())
+	for i := range generic {
+		generic[i] = nilIfNilPtr(rv.Index(i).Interface())
+	}
+	return generic
+}
+
 func (f *functionCaller) CallFunction(name string, arguments []interface{}, intr *treeInterpreter) (interface{}, error) {
 	entry, ok := f.functionTable[name]
 	if !ok {
 		return nil, errors.New("unknown function: " + name)
+	}
+	for i, arg := range arguments {
+		arguments[i] = toGenericSlice(arg)
 	}
 	resolvedArgs, err := entry.resolveArgs(arguments)
 	if err != nil {
